@@ -99,7 +99,11 @@ pub fn check(c: &Case, ctx: &mut Ctx) -> Result<(), Failure> {
             ctx.label("reset_before_flat_stretch");
         }
         crate::tele::step(&mut ind, &c.cfg);
-        let out = if scalar { ind.next_scalar(bar.c) } else { ind.next_bar(&bar) };
+        // mixed use of both paths on one instance (tele.rs, events stage): this step of a bar-fed case goes through
+        // next(close); it then stands for the one-price bar at the close
+        let sc_step = !scalar && k.scalar() && crate::tele::scalar_here();
+        let bar = if sc_step { RawBar { o: bar.c, h: bar.c, l: bar.c, c: bar.c, v: bar.v } } else { bar };
+        let out = if scalar || sc_step { ind.next_scalar(bar.c) } else { ind.next_bar(&bar) };
         let t = i + 1 - t_base;
         big = big.max(bar.max_abs_price());
         let is_flat = bar.h == bar.l && bar.l == bar.c;
